@@ -47,7 +47,12 @@ func (t Threshold) IsValid([]byte) error {
 }
 
 func (t Threshold) Threshold(quorum uint) uint {
-	return uint(math.Ceil(float64(quorum) * (t / MaxThreshold).Float64()))
+	// NOTE threshold is meaningful to one decimal place(see String()); the
+	// required count is calculated by integer arithmetic on tenths to avoid
+	// the floating point error, ex) 25 * (56.0 / 100) = 14.000000000000002.
+	tenths := uint64(math.Round(t.Float64() * 10)) //nolint:gomnd //...
+
+	return uint((uint64(quorum)*tenths + 999) / 1000) //nolint:gomnd //...
 }
 
 func (t Threshold) VoteResult(quorum uint, set []string) (result VoteResult, key string) {
